@@ -2,7 +2,12 @@
 
 package common
 
-import "github.com/sharedcode/sop"
+import (
+	"sort"
+
+	"github.com/sharedcode/sop"
+	"github.com/sharedcode/sop/btree"
+)
 
 // C15 accessors (read-only views of unexported values).
 
@@ -11,3 +16,42 @@ func VerifC15Phase1MaxRetry() int { return phase1CommitMaxRetryCount }
 
 // VerifC15NodesKeys returns the transaction's current node lock keys (nil when it has none).
 func VerifC15NodesKeys(t *Transaction) []*sop.LockKey { return t.nodesKeys }
+
+// VerifC15Tracked is one entry of an item action tracker: the item, the identity of its lock record and
+// whether the tracker believes it owns the record in the L2 cache.
+type VerifC15Tracked struct {
+	Key    int
+	ID     sop.UUID
+	LockID sop.UUID
+	Action int // 1 get, 2 add, 3 update, 4 remove (the actionType enum)
+	Owner  bool
+}
+
+// VerifC15TrackedItems lists the tracker entries of every opened [int,string] store, sorted by key.
+func VerifC15TrackedItems(t *Transaction) []VerifC15Tracked {
+	var out []VerifC15Tracked
+	for _, s := range t.btreesBackend {
+		b3, ok := s.btree.(*btree.Btree[int, string])
+		if !ok {
+			continue
+		}
+		iat, ok := btree.VerifStoreInterface(b3).ItemActionTracker.(*itemActionTracker[int, string])
+		if !ok {
+			continue
+		}
+		for id, ci := range iat.items {
+			k := 0
+			if ci.item != nil {
+				k = ci.item.Key
+			}
+			out = append(out, VerifC15Tracked{Key: k, ID: id, LockID: ci.LockID, Action: int(ci.Action), Owner: ci.isLockOwner})
+		}
+	}
+	sort.Slice(out, func(i, j int) bool { return out[i].Key < out[j].Key })
+	return out
+}
+
+// VerifC15Actions is the actionType enum in numeric order (get, add, update, remove).
+func VerifC15Actions() [4]int {
+	return [4]int{int(getAction), int(addAction), int(updateAction), int(removeAction)}
+}
